@@ -9,6 +9,7 @@ package py
 import (
 	"fmt"
 	"sync"
+	"sync/atomic"
 )
 
 type ModuleFlags int32
@@ -49,6 +50,8 @@ type ModuleImpl struct {
 type ModuleStore struct {
 	// Registry of installed modules
 	modules map[string]*Module
+	// Number of frames executing inside each other, see EnterCall
+	callDepth int32
 	// Builtin module
 	Builtins *Module
 	// this should be the frozen module importlib/_bootstrap.py generated
@@ -181,6 +184,27 @@ func (store *ModuleStore) GetModule(name string) (*Module, error) {
 // It is used when a module's body raised during its first import.
 func (store *ModuleStore) DiscardModule(name string) {
 	delete(store.modules, name)
+}
+
+// MaxCallDepth is how many python frames of one context may be
+// executing inside each other (like sys.getrecursionlimit()).
+const MaxCallDepth = 1000
+
+// EnterCall is called when a frame of this context starts (or resumes)
+// executing.  It fails with RuntimeError when MaxCallDepth frames are
+// already executing: unbounded recursion in a python program would
+// otherwise overflow the go stack, which the host can't recover from.
+func (store *ModuleStore) EnterCall() error {
+	if atomic.AddInt32(&store.callDepth, 1) > MaxCallDepth {
+		atomic.AddInt32(&store.callDepth, -1)
+		return ExceptionNewf(RuntimeError, "maximum recursion depth exceeded")
+	}
+	return nil
+}
+
+// LeaveCall undoes EnterCall
+func (store *ModuleStore) LeaveCall() {
+	atomic.AddInt32(&store.callDepth, -1)
 }
 
 // Gets a module or panics
